@@ -93,6 +93,66 @@ def gr2(proj, rep):
     return 1
 
 
+def gr2b(proj, rep):
+    """literal 4x4 seed of the quaternion table + the sign-extension idiom"""
+    rep.rule('GR2', RULES['GR2'])
+    f = proj.func(f'{MI}.get_quaternion_cayley_table')
+    m = f.module
+    n = 0
+    seed = next((s.value for s in f.node.body if isinstance(s, ast.Assign) and isinstance(s.value, ast.List) and s.value.elts
+                 and all(isinstance(e, ast.Constant) and isinstance(e.value, str) for e in s.value.elts)), None)
+    n += 1
+    if seed is None:
+        rep.undecided('GR2', f.qual, 'literal 4x4 seed of strings not found', m, f.node, text='quaternion seed')
+        return 0
+    T = [e.value.split() for e in seed.elts]
+    units = ['1', 'i', 'j', 'k']
+
+    def mul(a, b):
+        # quaternion product of signed units, from i^2 = j^2 = k^2 = ijk = -1
+        sa, ua = (-1, a[1:]) if a.startswith('-') else (1, a)
+        sb, ub = (-1, b[1:]) if b.startswith('-') else (1, b)
+        if ua == '1':
+            s0, u = 1, ub
+        elif ub == '1':
+            s0, u = 1, ua
+        elif ua == ub:
+            s0, u = -1, '1'
+        else:
+            cyc = {('i', 'j'): 'k', ('j', 'k'): 'i', ('k', 'i'): 'j'}
+            if (ua, ub) in cyc:
+                s0, u = 1, cyc[(ua, ub)]
+            else:
+                s0, u = -1, cyc[(ub, ua)]
+        sg = sa * sb * s0
+        return ('-' if sg < 0 else '') + u
+    bad = None
+    if len(T) != 4 or any(len(r) != 4 for r in T):
+        bad = 'the seed is not 4x4'
+    else:
+        for a in range(4):
+            for b in range(4):
+                if T[a][b] != mul(units[a], units[b]) and bad is None:
+                    bad = f'entry {units[a]}*{units[b]} is `{T[a][b]}`, the quaternion product is `{mul(units[a], units[b])}`'
+    if bad:
+        rep.violation('GR2', f.qual, f'the literal seed {[" ".join(r) for r in T]} is not the quaternion multiplication table: {bad} (the extended 8x8 table is then not '
+                      f'associative)', m, seed)
+    else:
+        rep.ok('GR2', f.qual, 'literal 4x4 seed equals the quaternion products of (1, i, j, k)', m, seed)
+    # extension by signs: negation map and element order
+    n += 1
+    src = _t(f.node)
+    neg_ok = "hf0=lambdax:'-'+xiflen(x)==1elsex[1]" in src
+    ext_ok = 'tmp1=tmp0+[[hf0(y)foryinx]forxintmp0]' in src and 'tmp2=[x+[hf0(y)foryinx]forxintmp1]' in src
+    order_ok = "enumerate('1ijk-1-i-j-k'.split(''))" in src
+    if neg_ok and ext_ok and order_ok:
+        rep.ok('GR2', f'{f.qual}[extension]', 'rows/columns of the negated units are the negated entries; elements ordered 1 i j k -1 -i -j -k', m, f.node, text='quaternion extension')
+    else:
+        rep.undecided('GR2', f'{f.qual}[extension]', 'sign-extension idiom not recognised', m, f.node, text='quaternion extension')
+        n -= 1
+    return n
+
+
 def gr3(proj, rep):
     rep.rule('GR3', RULES['GR3'])
     n = 0
@@ -104,6 +164,9 @@ def gr3(proj, rep):
     ar = next((s.targets[0].id for s in f.node.body if isinstance(s, ast.Assign) and isinstance(s.targets[0], ast.Name) and _t(s.value).startswith('np.arange(n')), None)
     if ar and (f'np.remainder({ar}[:,np.newaxis]+{ar},n)' in src or f'({ar}[:,np.newaxis]+{ar})%n' in src or f'np.remainder({ar}[:,None]+{ar},n)' in src):
         rep.ok('GR3', f.qual, '(i + j) mod n over arange(n)', m, f.node, text='cyclic law')
+    elif 'circulant(' in src:
+        rep.violation('GR3', f.qual, 'the table is built as a circulant of arange(n): circulant(c)[i,j] = c[(i-j) mod n], i.e. the SUBTRACTION table (i-j) / (j-i) mod n, '
+                      'which is a Latin square but not associative for n >= 3 and has only a one-sided identity', m, f.node, text='cyclic law')
     elif ar and ('np.remainder(' in src or '%n' in src):
         rep.violation('GR3', f.qual, 'the table is not (i + j) mod n over arange(n): not the cyclic group law', m, f.node, text='cyclic law')
     else:
